@@ -145,6 +145,7 @@ def run(chk):
         # the same values with the ordinals spelled as enum members / numpy ints / mixed, positional and keyword arguments
         pcases = [c for c in c03.presentation_cases(chk, chk.tier, spellings=None, layouts=(chk.tier != "quick"))
                   if c["regime"] in (4, 6)]          # C02 (and the published model) cover the dislocation-type regimes
+        pcases += c03.dtype_cases(chk, chk.tier)     # the same values in integer / binary32 dtypes (seeded change C02f)
         bad += c03.compare(chk, core, pcases, "derivs")
         bad += [(c, "published model: " + m) for c, m in c03.compare(chk, core, pcases, "spec_derivs")]
         cases = cases + pcases          # ... and through the interpreted source below
